@@ -820,6 +820,12 @@ func (d *refreshDebouncer) debounce() {
 func (d *refreshDebouncer) refreshNow() <-chan error {
 	d.mu.Lock()
 	defer d.mu.Unlock()
+	if d.stopped {
+		// the flusher is gone (or about to go): nobody would ever answer this request
+		ch := make(chan error)
+		close(ch)
+		return ch
+	}
 	if d.broadcaster == nil {
 		d.broadcaster = newErrorBroadcaster()
 		select {
@@ -880,7 +886,8 @@ func (d *refreshDebouncer) stop() {
 	}
 	d.stopped = true
 	d.mu.Unlock()
-	d.quit <- struct{}{} // sync with flusher
+	// wake the flusher if it is idle; whatever woke it, it sees stopped and returns.
+	// (a send here blocks for ever when the flusher has already returned.)
 	close(d.quit)
 }
 
